@@ -302,8 +302,13 @@ pub fn check(v: &View, sc: Option<&Scenario>, quiescent: bool) -> ApiOut {
     // streams that saw an RST_STREAM in either direction were legitimately cut short
     let mut rst_sids = std::collections::BTreeSet::new();
     let mut error_goaway = false;
+    // lowest last-stream-id announced per direction: streams above it are legitimately not processed
+    let mut goaway_last: [Option<u32>; 2] = [None, None];
     for d in 0..2 {
         for f in v.frames(d) {
+            if let crate::wire::frame::Body::GoAway { last, .. } = f.body {
+                goaway_last[d] = Some(goaway_last[d].map(|x: u32| x.min(last)).unwrap_or(last));
+            }
             match f.body {
                 crate::wire::frame::Body::Rst { .. } => {
                     rst_sids.insert(f.sid);
@@ -423,7 +428,9 @@ pub fn check(v: &View, sc: Option<&Scenario>, quiescent: bool) -> ApiOut {
                     // once the client has the complete response and drops its handles, h2 regards the
                     // stream as finished and the idle client closes the connection (observed, by design).
                     let demanded = name == "response" || sp.respond_when == crate::apps::spec::RespondWhen::AfterRequestRead;
-                    if demanded && sp.fully_cooperative() && !b.clean_end && !rst_sids.contains(&s.sid) && !error_goaway {
+                    // a stream initiated by X above the last-stream-id of a GOAWAY sent by X's peer
+                    let cut_by_goaway = if s.sid % 2 == 1 { goaway_last[1].map(|l| s.sid > l).unwrap_or(false) } else { goaway_last[0].map(|l| s.sid > l).unwrap_or(false) };
+                    if demanded && sp.fully_cooperative() && !b.clean_end && !rst_sids.contains(&s.sid) && !error_goaway && !cut_by_goaway && s.sid != 0 {
                         viol.push(Violation::new(
                             "C01",
                             "complete-message-without-clean-end",
